@@ -11,7 +11,7 @@
      round <st> <d|r> <64|128> <p> <s> <n> <v>       -> <impl> <spec>        (ok:<scale>:<unscaled>)
      intfn <abs|sign|ceil|floor|trunc|round> <a>     -> <impl> <spec> <same 0/1>
      decfn <op> <v> <s>                              -> <impl> <spec> <same 0/1>
-     deccmp <d|r> <opnd> <opnd>                      -> <impl> <spec> <impl8> <spec8>    (lt|eq|gt|null|err|panic; eight results
+     deccmp <i8 0/1> <u64prec> <wide 0/1> <d|r> <opnd> <opnd>                     -> <impl> <spec> <impl8> <spec8>    (lt|eq|gt|null|err|panic; eight results
         opnd = d:<64|128>:<p>:<s>:<v|N> | i:<s|u>:<w>:<v|N> | f:<bits|N>          < <= = <> >= > distinct not-distinct as 1/0/N, - if none)
      cmp <a> <b>                                     -> six 0/1 characters: a<b a<=b a=b a<>b a>=b a>b (definition only)
    outcome = ok:<v> | err | panic | fuel ;  fres = int:<n> | nz (negative zero) | bits:<b> | none *)
@@ -90,9 +90,10 @@ let numfn () =
          let i = impl_dec_fn (p_fop op) (zs v) (zs s) and sp = spec_dec_fn (p_fop op) (zs v) (zs s) in
          let same = match i, sp with Some x, Some y -> fres_eqb x y | None, None -> true | _ -> false in
          Printf.printf "%s %s %s\n" (fres_opt i) (fres_opt sp) (b01 same)
-       | ["deccmp"; m; l; r] ->
+       | ["deccmp"; i8; up; wd; m; l; r] ->
          let l = p_cop l and r = p_cop r in
-         let i = impl_cmp_mixed (p_mode m) l r and sp = spec_cmp_mixed l r in
+         let pp = { bind_i8 = (i8 = "1"); u64_prec = zs up; wide128 = (wd = "1") } in
+         let i = impl_cmp_mixed pp (p_mode m) l r and sp = spec_cmp_mixed l r in
          Printf.printf "%s %s %s %s\n" (out_cmp i) (out_cmp sp) (res8 l r i) (res8 l r sp)
        | ["cmp"; a; b] ->
          print_endline (String.concat "" (List.map (fun op -> b01 (spec_cmp op (zs a) (zs b))) [CLt; CLe; CEq; CNe; CGe; CGt]))
